@@ -40,6 +40,13 @@ def plan(tier, seed):
                        ('components', 6 if q else 210, 1 if q else 5)):
     for i in range(0, n, per):
       jobs.append({'kind': kind, 'seed': seed, 'first': i, 'count': per})
+  # extra rigid-transform cases for the generalized pipeline only, with the
+  # default approximate mass-matrix inverse and fast motion (a frame-dependent
+  # accept/restart decision in that iteration flips on ~1 model in 4)
+  nf = 14 if q else 140
+  for i in range(0, nf, 2):
+    jobs.append({'kind': 'rigid', 'seed': seed, 'first': 1000 + i, 'count': 2,
+                 'fast_only': True})
   return jobs
 
 
@@ -51,7 +58,7 @@ def floors(tier):
     f['ev:sibling_order:' + p] = 3 * k
     f['ev:components:' + p] = 4 * k
   f['rigid_models_with_slide'] = 4 * k
-  f['rigid_models_approximate_inverse'] = 3 * k
+  f['rigid_models_approximate_inverse'] = 12 * (1 if tier == 'quick' else 10)
   f['order_models_where_link_order_changed'] = 4 * k
   return f
 
@@ -155,7 +162,7 @@ def run(job, mon):
 
     if kind == 'rigid':
       spec = free_rooted(rng, strength='gentle' if c % 2 else 'wild')
-      fast = c % 3 == 2
+      fast = c % 3 == 2 or bool(job.get('fast_only'))
       if fast:
         # the default approximate mass-matrix inverse (warm-started
         # Newton-Schulz) with fast motion: the regime where a frame-dependent
@@ -173,7 +180,8 @@ def run(job, mon):
       mon.distinct('rigid|' + gen.topo_key(spec),
                    any(not b['free'] for b in spec['bodies']))
       g0 = np.asarray(spec['gravity'])
-      for pname in phys.PIPELINES:
+      for pname in (('generalized',) if job.get('fast_only')
+                    else phys.PIPELINES):
         fn = runner(sys_, phys.pipeline(pname), nsteps, with_gravity=True)
         for _ in range(6 if fast else 2):
           rot, tr = gen.rquat(rng), rng.uniform(-3, 3, 3)
@@ -208,8 +216,11 @@ def run(job, mon):
               e = max(e, abs(qa_[mj.jnt_qposadr[j]] - qb_[mj.jnt_qposadr[j]]))
               e = max(e, abs(qda_[mj.jnt_dofadr[j]] - qdb_[mj.jnt_dofadr[j]])
                       / (1 + np.abs(qda_).max()))
-          mon.err('rigid_transform:' + pname, e)
-          mon.check('rigid_transform:' + pname, e <= TOL,
+          mon.err('rigid_transform:' + pname + (':approx_inverse_fast'
+                                                if fast else ''), e)
+          # fast motion through the warm-started approximate inverse amplifies
+          # round-off (1.7e-8 observed on the unchanged tree): 1e-5 there
+          mon.check('rigid_transform:' + pname, e <= (1e-5 if fast else TOL),
                     lambda: dict(model=c, seed=job['seed'], pipeline=pname,
                                  nsteps=nsteps, xml=xml, q=q, qd=qd, ctrl=a,
                                  rotation=rot, translation=tr, err=e))
